@@ -1,13 +1,14 @@
 (* C04/Check.v — correspondence + property oracle for one harness case (executable only).
 
    Case layout:
-     T (Go type name)  value(T)  oracle-table
+     T (Go type name)  known-class?  value(T)  oracle-table
      marshal_ok  [ text-tree  unmarshal_ok [value(T)]  scan_ok  n (kind value(kind))* ]
    codes: 1 = model <> implementation (encoder text tree, decoder result, scanner result)
           2 = the property fails on the observation: the value does not come back equal, the
               scanner does not yield the value's objects, or the text uses a name outside the
               OSM XML vocabulary
-          3 = the generated value is outside the well-formedness domain of the theorems
+          3 = the generated value is outside the well-formedness domain of the theorems although the
+              harness assigned no known-finding class to it (or inside although it did)
           0 = the case does not parse. *)
 From Coq Require Import ZArith List String Bool.
 From Verif Require Import Base.Wire Codec.Schema Codec.Value Codec.Xml Codec.Scan Codec.SpecNames
@@ -33,10 +34,13 @@ Definition opt_ttree_eqb (a : option ttree) (b : ttree) : bool :=
 
 Definition check_doc (T : string) : P (list Z) :=
   _u <- (if existsb (String.eqb T) top_types then ret tt else pfail) ;;
+  known <- pbool ;;
   v <- pvalue gen_schema PFUEL (TNamed T) ;;
   o <- poracle ;;
   mok <- pbool ;;
-  let j3 := wfb gen_schema T v in
+  (* the harness assigns a known-finding class from the value alone exactly when the value is
+     outside the domain of the theorems *)
+  let j3 := Bool.eqb (wfb gen_schema T v) (negb known) in
   let me := encode1 gen_schema T v in
   if negb mok then
     ret (code_if (match me with Err _ => true | Ok _ => false end) 1 ++ [2] ++ code_if j3 3)%list
